@@ -1143,7 +1143,7 @@ func genQ09(w *bufio.Writer, rng *prng, n int, depth int) {
 // C16: the routes agree
 
 type failWriter struct {
-	mode   int // 0 ok, 1 error, 2 short write
+	mode   int // 0 ok, 1 error, 2 short write, 3 short write reported without an error, 4 error after a partial write, 5 more than offered
 	writes [][]byte
 }
 
@@ -1156,6 +1156,12 @@ func (f *failWriter) Write(p []byte) (int, error) {
 		return 0, errSink
 	case 2:
 		return len(p) / 2, io.ErrShortWrite
+	case 3:
+		return len(p) / 2, nil
+	case 4:
+		return len(p) / 3, errSink
+	case 5:
+		return len(p) + 1, nil
 	}
 	return len(p), nil
 }
@@ -1203,7 +1209,7 @@ func genQ16(w *bufio.Writer, rng *prng, n int, depth int) {
 			}
 			return string(redact.Sprint(a...))
 		})
-		mode := rng.intn(3)
+		mode := rng.intn(6)
 		var fw *failWriter
 		var fn_ int
 		var ferr error
@@ -1234,8 +1240,11 @@ func genQ16(w *bufio.Writer, rng *prng, n int, depth int) {
 				}
 			}))
 		})
+		// the SafeFormat method is reached through an arbitrary directive of the enclosing call:
+		// its flags, width and precision are not those of the nested Print(f)
+		outer := rng.pick([]string{"%v", "%v", "%+v", "%#v", "%s", "%+d", "% x", "%-5v", "%05d", "%+q", "%8.3v"})
 		so, pS := route("SF", func(a []interface{}) string {
-			return string(redact.Sprint(sfFunc(func(p redact.SafePrinter) {
+			return string(redact.Sprintf(outer, sfFunc(func(p redact.SafePrinter) {
 				if isF {
 					p.Printf(c.format, a...)
 				} else {
@@ -1243,6 +1252,7 @@ func genQ16(w *bufio.Writer, rng *prng, n int, depth int) {
 				}
 			})))
 		})
+		info += " outer=" + outer
 		q.truth("C16", "the routes panic together", ps == pf && ps == pb && ps == pn, info)
 		if ps || pf || pb || pn {
 			continue
@@ -1260,6 +1270,12 @@ func genQ16(w *bufio.Writer, rng *prng, n int, depth int) {
 			wantN, wantErr = 0, errSink
 		case 2:
 			wantN, wantErr = len(fo)/2, io.ErrShortWrite
+		case 3:
+			wantN, wantErr = len(fo)/2, nil
+		case 4:
+			wantN, wantErr = len(fo)/3, errSink
+		case 5:
+			wantN, wantErr = len(fo)+1, nil
 		}
 		q.truth("C16", "Fprint(f) returns the writer's count and error", fn_ == wantN && ferr == wantErr, info)
 		fmt.Fprintln(w, runPCase(c))
@@ -1670,6 +1686,28 @@ func c12history(g *vgen, depth int) {
 	}
 }
 
+func c12edgeHistories() []func() {
+	var hs []func()
+	for _, mal := range []string{"›", "‹", "a›", "‹a", "››", "‹›‹", "\xe2\x80", "›\n", ""} {
+		for _, tail := range []string{"", "x", "\n"} {
+			mal, tail := mal, tail
+			hs = append(hs,
+				func() { _ = redact.Sprint(redact.RedactableString(mal), tail) },
+				func() { _ = redact.Sprintf("%s%s", redact.RedactableBytes(mal), tail) },
+				func() { _ = redact.Sprintf("%v%d", redact.RedactableString(mal), []int{}) },
+				func() {
+					_ = redact.Sprintfn(func(w redact.SafePrinter) { w.Print(redact.RedactableString(mal)); w.UnsafeString(tail) })
+				},
+				func() {
+					_ = redact.Sprint(sfFunc(func(p redact.SafePrinter) { p.Print(redact.RedactableString(mal)); p.UnsafeString(tail) }))
+				},
+				func() { _, _ = redact.Fprint(io.Discard, redact.RedactableString(mal), redact.Unsafe(tail)) },
+				func() { _, _ = redact.HelperForErrorf("%s%s", redact.RedactableString(mal), tail) })
+		}
+	}
+	return hs
+}
+
 func genQ12(w *bufio.Writer, rng *prng, n int, depth int, baseline bool) {
 	probes := c12probes()
 	if baseline {
@@ -1692,9 +1730,17 @@ func genQ12(w *bufio.Writer, rng *prng, n int, depth int, baseline bool) {
 	}
 	allocs0 := redact.VerifPoolAllocs()
 	calls := 0
-	for i := 0; i < n; i++ {
+	// fixed edge histories first: a caller-made (malformed) pre-redactable operand - lone or dangling
+	// markers, a truncated marker - followed by an empty or non-empty unsafe value, on every route;
+	// such a call may end with the printer's buffer in a state no well-formed history reaches
+	edge := c12edgeHistories()
+	for i := 0; i < n+len(edge); i++ {
 		g := &vgen{rng: rng, hostile: true}
-		c12history(g, depth)
+		if i < len(edge) {
+			_, _ = try(edge[i])
+		} else {
+			c12history(g, depth)
+		}
 		setRegistry(false)
 		setHook(nil)
 		for pi, p := range probes {
